@@ -14,6 +14,8 @@ pub enum Delivery {
     Stdin,
     OneFile,
     TwoFiles,
+    /// five files: input, input2, input, input2, input
+    FiveFiles,
 }
 impl Delivery {
     fn name(self) -> &'static str {
@@ -21,12 +23,14 @@ impl Delivery {
             Delivery::Stdin => "stdin",
             Delivery::OneFile => "one_file",
             Delivery::TwoFiles => "two_files",
+            Delivery::FiveFiles => "five_files",
         }
     }
     fn parse(s: &str) -> Delivery {
         match s {
             "stdin" => Delivery::Stdin,
             "one_file" => Delivery::OneFile,
+            "five_files" => Delivery::FiveFiles,
             _ => Delivery::TwoFiles,
         }
     }
@@ -139,6 +143,12 @@ pub fn run(inv: &Invocation) -> RunResult {
             std::fs::write(dir.join("in2.txt"), &inv.input2).unwrap();
             cmd.arg("in1.txt").arg("in2.txt");
         }
+        Delivery::FiveFiles => {
+            for (i, name) in ["in1.txt", "in2.txt", "in3.txt", "in4.txt", "in5.txt"].iter().enumerate() {
+                std::fs::write(dir.join(name), if i % 2 == 0 { &inv.input } else { &inv.input2 }).unwrap();
+                cmd.arg(name);
+            }
+        }
     }
     cmd.stdin(Stdio::piped()).stdout(Stdio::piped()).stderr(Stdio::piped());
     let mut child = cmd.spawn().expect("spawn daacfind (run ./check setup)");
@@ -220,6 +230,13 @@ pub fn reference_check(inv: &Invocation, r: &RunResult, drop_cr: bool) -> Result
         Delivery::Stdin => vec![(inv.input.as_slice(), None)],
         Delivery::OneFile => vec![(inv.input.as_slice(), Some("in1.txt"))],
         Delivery::TwoFiles => vec![(inv.input.as_slice(), Some("in1.txt")), (inv.input2.as_slice(), Some("in2.txt"))],
+        Delivery::FiveFiles => vec![
+            (inv.input.as_slice(), Some("in1.txt")),
+            (inv.input2.as_slice(), Some("in2.txt")),
+            (inv.input.as_slice(), Some("in3.txt")),
+            (inv.input2.as_slice(), Some("in4.txt")),
+            (inv.input.as_slice(), Some("in5.txt")),
+        ],
     };
     // expected printed lines: (prefix without number, line index, text, red mask)
     let mut expected: Vec<(Vec<u8>, usize, Vec<u8>, Vec<bool>)> = Vec::new();
@@ -482,6 +499,7 @@ pub fn c16(tier: &str, acc: &mut Acc, bounds: &mut Vec<String>) {
                                 Delivery::Stdin => sel == 0,
                                 Delivery::OneFile => sel == 1,
                                 Delivery::TwoFiles => sel == 2,
+                                Delivery::FiveFiles => false,
                             };
                             let f_ok = via_file == ((li as u32 + flags / 2) % 2 == 0);
                             if !(d_ok && f_ok) {
@@ -592,6 +610,54 @@ pub fn c16(tier: &str, acc: &mut Acc, bounds: &mut Vec<String>) {
             }
         }
     }
+    // scale: many patterns starting at one byte (nested a^1..a^200), hundreds of patterns, a line of
+    // 70 000 bytes, five files
+    {
+        let nested: Vec<Vec<u8>> = (1..=200).map(|i| vec![b'a'; i]).collect();
+        let mut in_nested = Vec::new();
+        in_nested.extend_from_slice(&vec![b'a'; 200]);
+        in_nested.push(b'\n');
+        in_nested.extend_from_slice(b"x");
+        in_nested.extend_from_slice(&vec![b'a'; 150]);
+        in_nested.extend_from_slice(b"x\nb\n\n");
+        in_nested.extend_from_slice(&vec![b'a'; 130]);
+        in_nested.extend_from_slice(b"\n");
+        let mut many: Vec<Vec<u8>> = Vec::new();
+        for a in b'a'..=b'r' {
+            for b in b'a'..=b'r' {
+                many.push(vec![a, b]);
+            }
+        }
+        let in_many = b"xxabxx\nzzzz\nrrqqppaa\n\nhello world\n".to_vec();
+        let mut long_line = Vec::new();
+        long_line.extend_from_slice(b"ab");
+        long_line.extend_from_slice(&vec![b'x'; 35_000]);
+        long_line.extend_from_slice("\u{4e16}ab\u{4e16}".as_bytes());
+        long_line.extend_from_slice(&vec![b'y'; 35_000]);
+        long_line.extend_from_slice(b"ba\nshort ab\n");
+        let few: Vec<Vec<u8>> = vec![b"ab".to_vec(), "\u{4e16}".as_bytes().to_vec(), b"ba".to_vec()];
+        for profile in ["debug", "release"] {
+            for color in [false, true] {
+                for (pats, input, via_file) in [(&nested, &in_nested, true), (&many, &in_many, true), (&few, &long_line, false)] {
+                    for delivery in [Delivery::Stdin, Delivery::FiveFiles] {
+                        invs.push(Invocation {
+                            profile,
+                            patterns: pats.clone(),
+                            via_file,
+                            split: false,
+                            long_flags: false,
+                            line_number: true,
+                            no_filename: false,
+                            color,
+                            delivery,
+                            input: input.clone(),
+                            input2: b"ab\n\naaa\n".to_vec(),
+                        });
+                    }
+                }
+            }
+        }
+    }
     let total = invs.len();
     // chunked parallel execution
     let chunk = 64;
@@ -613,6 +679,7 @@ pub fn c16(tier: &str, acc: &mut Acc, bounds: &mut Vec<String>) {
         "line sweep: {} pattern lists (<= {kmax} from the 28 strings of length <= 2 over a,b,U+4E16,space plus length 3 over a,b) x flag combinations x deliveries x -p/-f (full product for single patterns, covering subset for pairs unless thorough) x dev+release on one input with every line value of length <= {} over a,b,U+4E16,x,space ({} bytes); a second sweep with CR among the letters on a subset of the flags",
         lists.len(), if thorough { 4 } else { 3 }, sweep.len()
     ));
+    bounds.push("scale: 200 nested patterns a^1..a^200 on lines of 130-200 bytes, 324 two-letter patterns, a line of 70 kB, five files; colour on and off; dev + release".into());
     bounds.push(format!(
         "whole-input sweep: {} inputs (<= {maxlines} lines over empty,a,U+4E16,x) x {} pattern lists x 4 flag/delivery combinations x dev+release",
         inputs.len(), lists2.len()
